@@ -340,6 +340,14 @@ class C16(Property):
                        [["set", 1, 10, e1], ["del", 1], ["set", 1, 11, e2]] + T + G(1) + T + G(1) + T + G(1) +
                        [["set", 1, 12, e1]] + T + G(1) + [["set", 1, 12, e1]] + T + G(1) + T + G(1) +
                        [["set", 2, 20, e1], ["del", 2], ["set", 2, 20, e1]] + T + G(2) + T + G(2)})
+        # an expiry callback held back after its tick: released at once; other keys used meanwhile
+        cs.append({"kind": "cachew", "limit": 0, "expire_ms": e2, "ops":
+                   [["set", 1, 10, e1], ["set", 2, 20, e3], ["tick_hold"], ["release"]] + G(1, 2) +
+                   [["set", 1, 11, e1], ["tick_hold"], ["get", 2], ["set", 3, 30, e1], ["release"], ["held"]] + G(1, 2, 3) +
+                   T + [["held"]]})
+        if self.STALE_ID in vlib.known_ids(self.id):
+            cs.append({"kind": "cachew", "limit": 0, "expire_ms": e2, "ops":
+                       [["set", 1, 10, e1], ["tick_hold"], ["set", 1, 11, e3], ["release"], ["get", 1], ["held"]]})
         # two concurrent Takes of one key (loader gated), limit 1: one load, one entry, one eviction
         cs.append({"kind": "cache_take2", "limit": 1, "ops": [["set", 1, 10], ["take2", 9, 90, 91], ["get", 9], ["get", 1]]})
         cs.append({"kind": "cache_take2", "limit": 2, "ops":
@@ -549,6 +557,8 @@ class C16(Property):
                     ops.append(rng.choice([["held"], ["held"], ["size"]]))
         if rng.random() < 0.45:
             ops += self._reset_scenario(rng, iv, es, rng.randrange(nkeys))
+        if rng.random() < 0.5:
+            ops += self._hold_scenario(rng, iv, es, nkeys, limit)
         ops += [["tick"]] * rng.randint(0, 3) + [["held"]] + [["get", x] for x in range(nkeys)]
         return {"kind": "cachew", "limit": limit, "expire_ms": rng.choice(es[1:4] + ([0] if sub else [])), "ops": ops}
 
@@ -570,6 +580,61 @@ class C16(Property):
         due = ops[-1][3] // iv
         ops += [["tick"]] * (due - 1) + [["held"], ["get", k], ["tick"], ["held"], ["get", k], ["tick"], ["get", k]]
         return ops
+
+    STALE_ID = "C16-stale-expiry-callback-deletes-rewritten-entry"
+
+    def _hold_scenario(self, rng, iv, es, nkeys, limit):
+        """Generation of an entry: key k is set, its last tick comes but the expiry callback the
+        wheel has started is held back; meanwhile other keys are used and - only when the known
+        finding is registered, the unchanged tree loses the new value - k is written again; then
+        the callback runs.  The new entry must live its own life.  While a callback is held its
+        entry is expired but not yet deleted: reading it may give either answer and it still
+        occupies a place in the recency list, so nothing in the window reads a fired key, and
+        with a limit nothing is inserted (all other keys are deleted first: none of them fires)."""
+        k = rng.randrange(nkeys)
+        e1 = rng.choice(es[1:3])
+        others = [x for x in range(nkeys) if x != k]
+        ops = [["del", o] for o in others]
+        ops += [["set", k, rng.randrange(1, 1000), e1]] + [["tick"]] * (e1 // iv - 1) + [["held"], ["tick_hold"]]
+        for _ in range(rng.randint(0, 2)):
+            if others and limit == 0:
+                o = rng.choice(others)
+                ops.append(rng.choice([["get", o], ["set", o, rng.randrange(1000), rng.choice(es[2:4])], ["del", o]]))
+        rewrite = self.STALE_ID in vlib.known_ids(self.id) and rng.random() < 0.6
+        if rewrite:
+            e2 = rng.choice(es[1:4])
+            ops.append(["set", k, rng.randrange(1, 1000), e2])
+        ops += [["release"], ["held"], ["get", k]]
+        if not rewrite and rng.random() < 0.5:
+            ops += [["set", k, rng.randrange(1, 1000), rng.choice(es[1:3])], ["get", k]]
+        ops += [["tick"], ["held"], ["tick"], ["get", k]]
+        return ops
+
+    def known(self, case, obs):
+        """The one registered shape: a wheel-driven history in which a key fired by a HELD tick is
+        written again before the release - and the implementation did exactly what the committed
+        model of the unchanged tree does (Check.agrees), i.e. lost the rewritten entry."""
+        if case.get("kind") != "cachew":
+            return None
+        fired_window = False
+        rewritten = False
+        written = set()
+        for o in case["ops"]:
+            if o[0] == "tick_hold":
+                fired_window = True
+            elif o[0] == "release":
+                fired_window = False
+            elif o[0] in ("set", "take"):
+                if fired_window and o[0] == "set" and o[1] in written:
+                    rewritten = True      # a key written before the held tick is Set again before the release
+                written.add(o[1])
+        if not rewritten:
+            return None
+        try:
+            out = vlib.coq_eval_term(self.id, self.check_module, "agrees (%s)" % self.coq_case(case, obs))
+        except Exception:
+            return None
+        return self.STALE_ID if "= true" in out else None
 
     def _gen_cache_take2(self, rng, tier):
         limit = rng.choice([0, 1, 2, 3])
@@ -802,6 +867,15 @@ class C16(Property):
                     ops.append(["get", K + 2])
                     do(["del", K + 2])
                     ops += [["size"], ["get", K + 2]]
+                    # the generation switch happens inside one of these Dels: use a key of each
+                    # generation right around it
+                    ko = min(sim.old) if sim.old else 0
+                    do(["set", K + 1, 9])
+                    ops += [["get", ko], ["get", K + 1]]
+                    do(["set", ko, 77])
+                    ops.append(["get", ko])
+                    do(["del", K + 1])
+                    ops += [["get", K + 1], ["size"]]
                 ops += probes()
             elif ph == "mig1" and sim.draining():
                 # dirtyOld shrinks below copyThreshold: the generations are merged and swapped
@@ -821,7 +895,13 @@ class C16(Property):
                 rest = sorted(k for k in sim.old if k < live)
                 for k in rest[:4]:
                     do(["del", k])
-                    ops += [["size"], ["get", k], ["get", rest[-1]]]
+                    ops += [["size"], ["get", k], ["get", rest[-1]], ["get", K + 1]]
+                    # a key of the old generation and one of the new, written / deleted right around the swap
+                    do(["set", rest[-1], 66])
+                    do(["set", K + 1, 67])
+                    ops += [["get", rest[-1]], ["get", K + 1]]
+                    do(["del", K + 1])
+                    ops += [["get", K + 1], ["size"]]
                 ops += probes()
                 ops += [["rangestop", 3], ["range"]]
             elif ph == "refill":
@@ -1268,6 +1348,10 @@ class C16(Property):
             return "XX (XTake %s %s %s)" % (cz(o[1]), "None" if o[2] is None else "(Some %s)" % cz(o[2]), cz(default_ms))
         if t == "tick":
             return "XX XTick"
+        if t == "tick_hold":
+            return "XTickHold"
+        if t == "release":
+            return "XRelease"
         if t == "held":
             return "XHeld"
         if t == "size":
@@ -1364,6 +1448,7 @@ class C16(Property):
             # an entry was seen present and later, after ticks only (no Del of it), absent
             was = set()
             gets = [o for o in ops if o[0] in ("get", "take", "held", "size")]
+            ops = [o if o[0] != "tick_hold" else ["tick"] for o in ops]
             for o, r in zip(gets, seen):
                 if o[0] in ("held", "size"):
                     continue
@@ -1434,6 +1519,8 @@ class C16(Property):
             fs.append("set:managed" if case.get("ignore") else "set:unmanaged")
         elif k in ("cache", "cache_rt", "cachew", "cache_take2"):
             fs.append("%s:limit=%d" % (k, case["limit"]))
+            if k == "cachew" and any(o[0] == "tick_hold" for o in case["ops"]):
+                fs.append("cachew:expiry-callback-held")
             if k == "cachew":
                 iv_ms = self.consts["interval_ns"] // 10 ** 6
                 if any(o[0] == "set" and o[3] < iv_ms for o in case["ops"]):
